@@ -383,8 +383,9 @@ def run(ctx: Ctx):
     r_whittaker(ctx, model)
     r_whittaker_point(ctx, model)
     r_point(ctx, model)
-    from ..sites import conversions_drop_caches, no_memoisation
-    conversions_drop_caches(ctx, load(ctx.root), "C19", "E-fresh")   # isosteric / Whittaker read pressure_at of converted isotherms
+    from ..sites import no_memoisation
+    from .C02 import cache_reset_for
+    cache_reset_for(ctx, "C19", "E-fresh")   # isosteric / Whittaker read pressure_at of converted isotherms: no cache survives a conversion
     ctx.rule("E-fresh (interpolated reads): pressure_at / loading_at answer from an interpolator built for the requested branch / kind / fill, "
              "whatever an earlier query left in the cache (cache discipline of C03, interpreted): an adsorption-branch isosteric analysis "
              "after a desorption-branch one must not read desorption pressures")
